@@ -61,7 +61,7 @@ def main():
         elif len(hs) > 60000:
             hs = rnd.sample(hs, 60000)
         for i, h in enumerate(hs):
-            cases.append({"model": model, "h": h, "form": FORMS[i % len(FORMS)]})
+            cases.append({"model": model, "h": h, "form": FORMS[i % len(FORMS)], "falsy": i % 5 == 2})
     ctx.cov["behaviours_in_bound"] = totals
     results = replay("onto", cases)
     ctx.replayed = len(cases)
@@ -73,7 +73,7 @@ def main():
             if pr:
                 bad = {"step": k, "assertion": m["f"], "problems": pr, "observed": o}
                 break
-        key = [c["model"], [s["f"] for s in c["h"]], c["form"]]
+        key = [c["model"], [s["f"] for s in c["h"]], c["form"]] + (["falsy"] if c.get("falsy") else [])
         nontrivial = len(c["h"][-1]["facts"]) > len(c["h"])
         ctx.case(key, nontrivial, sample={"model": c["model"], "assertions": [s["f"] for s in c["h"]], "form": c["form"],
                                           "closure_size": len(c["h"][-1]["facts"]), "how": r["how"]})
